@@ -137,6 +137,26 @@ def handle (op : String) (args0 : List String) : Option String := do
       let P ← intPoints hex
       let ts ← takeTris rest
       pure (boolStr (delaunayOk P n ts))
+  /- the fixed witness of the known finding C20-float-incircle-tight-cluster: same verified checkers; on failure the answer
+     names the first violating triangle and point / pair of triangles -/
+  | "c20.holds.delaunay_tight_cluster_witness" => do
+      let (n, hex, rest) ← takePoints args
+      let P ← intPoints hex
+      let ts ← takeTris rest
+      if delaunayOk P n ts then pure "true" else
+      let bad := ts.filterMap fun t => ((List.range n).find? fun i => insideCirc P t (P i)).map fun i => (t, i)
+      match bad.head? with
+      | some (t, i) => pure s!"false triangle=({t.1},{t.2.1},{t.2.2}) point={i}-strictly-inside-its-circumcircle violations={bad.length}"
+      | none => pure "false"
+  | "c20.holds.no_overlap_tight_cluster_witness" => do
+      let (_, hex, rest) ← takePoints args
+      let P ← intPoints hex
+      let ts ← takeTris rest
+      if noOverlapOk P ts then pure "true" else
+      let pairs := ts.flatMap fun t => (ts.filter fun u => t != u && !sepOk P t u).map fun u => (t, u)
+      match pairs.head? with
+      | some (t, u) => pure s!"false triangles=({t.1},{t.2.1},{t.2.2})&({u.1},{u.2.1},{u.2.2})-not-separated-by-any-edge-line pairs={pairs.length / 2}"
+      | none => pure "false"
   | "c20.holds.no_overlap" => do
       let (_, hex, rest) ← takePoints args
       let P ← intPoints hex
